@@ -1,4 +1,7 @@
 import TensoraVerif.Lemmas.Storage
+import TensoraVerif.Lemmas.StorageRoundTripDec
+import TensoraVerif.Lemmas.StorageRoundTripWf
+import TensoraVerif.Lemmas.StorageRoundTripPerm
 
 /-!
 C09 — property theorems about the storage model (`Model/Storage.lean`).
@@ -34,5 +37,121 @@ example :
     encode [.dense, .compressed] [1, 0] [2, 3] [([1, 2], 7), ([0, 1], 5), ([0, 1], 1)]
       = .ok ⟨[2, 3], [1, 0],
           [⟨.dense, [], []⟩, ⟨.compressed, [0, 0, 1, 2], [0, 1]⟩], [6, 7]⟩ := by rfl
+
+/-! ### Lossless round trip -/
+
+/-- the value a list of (coordinate, value) pairs assigns to `c`: duplicates are summed, absent = 0 -/
+def valueAt (es : List (List Int × Int)) (c : List Int) : Int :=
+  (es.filter (fun e => e.1 = c)).foldl (fun a e => a + e.2) 0
+
+/-- `c` is a coordinate inside the box `dims` -/
+def InRange (dims : List Nat) (c : List Int) : Prop :=
+  c.length = dims.length ∧ ∀ k (h : k < c.length), 0 ≤ c[k] ∧ c[k] < (dims.getD k 0 : Nat)
+
+theorem valueAt_eq_valAt : valueAt = valAt := rfl
+theorem InRange_eq_InRangeL : InRange = InRangeL := rfl
+
+/-- C09 main theorem: for every format (any modes, any permutation ordering), any dimensions
+(including 0) and any finite list of in-range coordinates (unsorted, with duplicates), construction
+succeeds, the stored structure is well-formed, read-back succeeds without any out-of-range array
+access, yields each coordinate at most once, only in-range coordinates, and assigns to every
+coordinate exactly the sum of the supplied values. -/
+theorem decode_encode (modes : List Mode) (ordering dims : List Nat) (entries : List (List Int × Int))
+    (hv : validOrdering ordering modes.length = true) (hd : dims.length = modes.length)
+    (hin : ∀ e ∈ entries, InRange dims e.1) :
+    ∃ t items, encode modes ordering dims entries = .ok t ∧ wfCheck t = true ∧
+      decode t = some items ∧ (items.map (·.1)).Nodup ∧ (∀ e ∈ items, InRange dims e.1) ∧
+      ∀ c, valueAt items c = valueAt entries c := by
+  rw [valueAt_eq_valAt, InRange_eq_InRangeL] at *
+  have hvo := validOrd_of hv
+  have hlenE : ∀ e ∈ entries, e.1.length = modes.length := fun e he => by rw [(hin e he).1, hd]
+  -- the level-order entries
+  have hall : entries.all (fun e => (toLevelOrder ordering e.1).isSome) = true := by
+    rw [List.all_eq_true]; intro e he
+    rw [toLevelOrder_eq hvo (hlenE e he)]; rfl
+  have hfm : entries.filterMap (fun e => (toLevelOrder ordering e.1).map fun c => (c, e.2))
+      = entries.map (fun e => (lo ordering e.1, e.2)) := by
+    have : ∀ l : List (List Int × Int), (∀ e ∈ l, e.1.length = modes.length) →
+        l.filterMap (fun e => (toLevelOrder ordering e.1).map fun c => (c, e.2))
+          = l.map (fun e => (lo ordering e.1, e.2)) := by
+      intro l
+      induction l with
+      | nil => simp
+      | cons x xs ih =>
+        intro h
+        rw [List.filterMap_cons, toLevelOrder_eq hvo (h x (by simp)),
+          ih (fun e he => h e (by simp [he]))]
+        rfl
+    exact this entries hlenE
+  generalize hes : entries.map (fun e => (lo ordering e.1, e.2)) = es at hfm
+  generalize hld : (ordering.map fun i => dims.getD i 0) = levelDims
+  have hok : ∀ e ∈ es, CoordOk modes levelDims e.1 := by
+    intro e he
+    rw [← hes] at he
+    obtain ⟨e', he', rfl⟩ := List.mem_map.mp he
+    rw [← hld]
+    exact coordOk_lo hvo hd (hin e' he')
+  have hinv := Inv_enc modes levelDims es hok
+  have hcrd := crdRangeOk_of_Inv modes levelDims _ _ 1 0 hinv
+  have hwf := wfLevels_of_Inv modes levelDims _ _ 1 hinv
+  have hdec := dec_enc_top modes levelDims es hok
+  have hI := items0_coordOk modes levelDims es hok
+  have hlev := mkLevels_length modes _ (enc_length modes levelDims es)
+  refine ⟨⟨dims, ordering, mkLevels modes (enc modes levelDims es).1, (enc modes levelDims es).2⟩,
+    (items0 modes levelDims es).map (fun e => (fromLevelOrder ordering e.1, e.2)), ?_, ?_, ?_, ?_, ?_, ?_⟩
+  · unfold encode
+    simp only [hv, hd, hall, hfm, hld, hcrd, and_self, not_true_eq_false, if_false]
+  · simp only [wfCheck, Stored.levelDims, hld, hlev, hv, hd, hwf, Bool.true_and, beq_self_eq_true]
+  · simp only [decode, Stored.levelDims, hld, hdec, Option.map_some]
+  · rw [List.map_map]
+    have hnd := items0_nodup modes levelDims es
+    rw [List.nodup_iff_pairwise_ne, List.pairwise_map] at hnd ⊢
+    refine hnd.imp_of_mem ?_
+    intro a b ha hb hab h
+    apply hab
+    have la := (coordOk_getD _ _ _ (hI a ha)).1
+    have lb := (coordOk_getD _ _ _ (hI b hb)).1
+    have := congrArg (lo ordering) h
+    simp only [Function.comp_def] at this
+    rwa [lo_from hvo la, lo_from hvo lb] at this
+  · intro e he
+    obtain ⟨e', he', rfl⟩ := List.mem_map.mp he
+    have := hI e' he'
+    rw [← hld] at this
+    exact inRangeL_from hvo hd this
+  · intro c
+    by_cases hc : c.length = modes.length
+    · have h1 := valAt_map_inj (fromLevelOrder ordering) (items0 modes levelDims es) (lo ordering c)
+        (fun e he h => by
+          have le := (coordOk_getD _ _ _ (hI e he)).1
+          have := congrArg (lo ordering) h
+          rwa [lo_from hvo le, lo_from hvo (by rw [lo_length, hvo.len])] at this)
+      have h2 := valAt_map_inj (lo ordering) entries c
+        (fun e he h => by
+          have := congrArg (fromLevelOrder ordering) h
+          rwa [from_lo hvo (hlenE e he), from_lo hvo hc] at this)
+      rw [from_lo hvo hc] at h1
+      rw [h1, valAt_items0 modes levelDims es hok, ← hes, h2]
+    · rw [valAt_eq_zero, valAt_eq_zero]
+      · intro e he h
+        exact hc (by rw [← h]; exact hlenE e he)
+      · intro e he h
+        obtain ⟨e', _, rfl⟩ := List.mem_map.mp he
+        apply hc
+        rw [← h]
+        simp only [fromLevelOrder_length, hvo.len]
+
+/-- non-vacuity: the hypotheses of `decode_encode` are satisfiable for a permuted ordering with
+shuffled, duplicated input (the CSC example above). -/
+example : ∃ t items,
+    encode [.dense, .compressed] [1, 0] [2, 3] [([1, 2], 7), ([0, 1], 5), ([0, 1], 1)] = .ok t ∧
+    wfCheck t = true ∧ decode t = some items ∧ (items.map (·.1)).Nodup ∧
+    (∀ e ∈ items, InRange [2, 3] e.1) ∧
+    ∀ c, valueAt items c = valueAt [([1, 2], 7), ([0, 1], 5), ([0, 1], 1)] c :=
+  decode_encode _ _ _ _ (by decide) (by decide) (by
+    intro e he
+    simp only [List.mem_cons, List.not_mem_nil, or_false] at he
+    rcases he with rfl | rfl | rfl <;> refine ⟨by decide, ?_⟩ <;> intro k h <;>
+      (have : k = 0 ∨ k = 1 := by simp at h; omega) <;> rcases this with rfl | rfl <;> simp)
 
 end TV.Storage
